@@ -64,7 +64,7 @@ def gen_config(rng, quick, force=None):
           "maxsteps": max(60, (12000 if quick else 40000) // slots),
           "postcut": 1 if rng.chance(2, 3) else 0}
     prim = []
-    nprim = rng.choice([1, 2, 5, 20, 60])
+    nprim = rng.choice([2, 5, 20, 60, 150])
     if problem == "mock":
         kw["along"] = rng.choice(["vlinear", "vlinear", "vfluct", "vfluct", "linear", "fluct",
                                   "neutral"])
@@ -101,6 +101,7 @@ def gen_config(rng, quick, force=None):
                 pos = [600.0, 0.0, 0.0]
             name = "gamma" if not rng.chance(1, 6) else "electron"
             prim.append((name, e, pos, unit_dir(rng), rng.below(4), nprim))
+    kw["capacity"] = max(kw["capacity"], sum(p[5] for p in prim) + 4)
     return problem, prim, kw
 
 
